@@ -14,3 +14,38 @@ run seed-struct-layout C13 C06 C04 C15 C16 C10
 run lookup-index-built-at-inject C20 C08 C07 C13 C09
 # polyseed_free wipes the block through the injected memzero in two adjacent pieces (tail first): covered is covered
 run free-wipes-in-two-calls C16 C15 C13 C14 C20
+# ---- round 2: eighteen changes written by independent sub-agents asked to PRESERVE all twenty properties ----
+# GF(2048) polynomial evaluation with delayed reduction: accumulate the unreduced carry-less sum of coeff[i] << i in 32 bits and reduce once with two branch-free folds (x^11 = x^2 + 1); the mul2 lookup table (a writable global) and gf_elem_mul2 are removed.  Why it is the same function: the old code i
+run gf-unreduced-sum-evaluation C02 C05 C20 C13
+# Word lookup without libc bsearch and without the temporary index array: an inlined binary search specialised per matching rule (no indirect comparator call, no wrappers), and auto-detection decodes candidates straight into the output array and only *tests* the remaining languages once one language h
+run inlined-binary-search-scan-into-caller-array C07 C08 C09 C01 C16 C13 C02
+# Fewer passes over phrase text: both decoders share one routine that copies, checks for non-ASCII and splits an ASCII phrase in a single pass (falling back to NFKD + the old splitter otherwise), and polyseed_encode writes languages that need no composition directly into the caller's buffer instead of
+run single-pass-ascii-splitter-direct-encode C09 C14 C19 C08 C17 C03 C13 C16
+# polyseed_encode writes the phrase of non-composing languages (en, it, cs, pt, zh_s, zh_t) straight into the caller's buffer; the stack scratch copy exists (and is wiped) only for the languages that need NFC composition (es, fr, jp, ko).  Files: src/polyseed.c only (polyseed_encode split into write_p
+run encode-direct-for-non-composing C03 C17 C16 C01 C13 C14
+# Text temporaries are wiped as soon as they are dead: both decoders now share phrase_to_poly (normalized phrase + word pointers live and die in that helper's frame, wiped before the checksum is verified and before the allocator is called) and poly_to_seed; polyseed_crypt wipes the normalized password
+run decoder-helpers-early-wipes C09 C16 C15 C13 C12 C14 C08
+# Decoders share a head helper (normalise + split) and a tail helper (coin, checksum, allocate, unpack, feature check); the goto ladders become status chaining with one unconditional wipe block.  What changed: polyseed_decode and polyseed_decode_explicit no longer duplicate 60 lines each. phrase_split
+run decoders-share-split-and-finish C09 C16 C15 C13 C14 C08 C01
+# create/crypt share a seed_seal() helper that recomputes the check word, encode/load share seed_to_poly(), polyseed_load releases the seed at a single cleanup label, polyseed_create clears the whole fresh block.  What changed:
+run seed-seal-and-single-cleanup-label C13 C06 C16 C18 C15 C12 C11
+# polyseed_encode builds the phrase with a phrase_write() helper, directly in the caller's buffer for the six languages that need no composition (temporary buffer only for es/fr/jp/ko); polyseed_keygen fills the salt from a small table.  What changed:
+run phrase-write-helper-salt-table C03 C17 C16 C04 C01 C13
+# gf.c/gf.h: secret<->polynomial conversion rewritten as a bit-stream accumulator (two passes, no memset, different types), and gf_elem_mul2 computed by shift + reduction with 0x805 instead of the writable lookup table (table symbol removed).  What changed
+run bitstream-packing-shift-reduce-doubling C02 C05 C01 C03 C20 C13
+# storage.c: serializer/deserializer rewritten byte-by-byte with explicit offsets and shifts (no store16/load16, no memcpy/memcmp/memset, header as a uint8_t table), and load now validates all fixed bits first (OR-accumulated difference, single exit) before writing anything into the seed.  What change
+run bytewise-storage-codec C06 C13 C10 C16 C14
+# birthday.h/features.c/features.h: birthday_encode reduces modulo the 1024-step period and then divides in 32-bit arithmetic (no '& DATE_MASK'), birthday_decode widened step by step; polyseed_enable_features computes the reserved mask arithmetically, counts bits with the n &= n-1 loop and writes the 
+run birthday-features-arithmetic C11 C10 C13 C18
+# Phrase splitter moved from polyseed.c into lang.c (polyseed_phrase_split) and rewritten: a read-only counting pass first, then the buffer is cut from the back and words[] is filled from index 15 down to 0; on a wrong word count the normalized copy is not modified at all.  Why every property it comes
+run back-to-front-splitter C09 C14 C08 C13 C19 C16 C01
+# lang.c lookup rewritten: libc bsearch and the four callback comparers are replaced by one matcher (plain unsigned-byte lexicographic order, accent bytes skipped for es/fr, reporting order / common length / token-exhausted), a hand-written lower-bound search over that true total order followed by ONE
+run lower-bound-search-single-matcher C07 C08 C09 C19 C13 C01 C02
+# Language registry changed from an array of list pointers to a const table of {list, search function, comparer} resolved at compile time, and auto-detection rewritten word-major: a 10-bit candidate mask is narrowed word by word (early exit when empty), then the first surviving language is decoded str
+run registry-table-candidate-mask-detection C07 C08 C09 C16 C13 C01 C20 C02
+# dependency.h: the GET_*/PBKDF2_SHA256/UTF8_*/ALLOC/FREE macros become typed static inline wrappers (dep_*), CHECK_DEPS becomes an inline function, and the lazy NFKD helper moves out of the header into dependency.c as a hidden function rewritten as scan-then-memcpy; polyseed_crypt's salt becomes uint
+run dependency-macros-to-inline-functions C08 C09 C12 C14 C19 C13 C18 C16
+# polyseed_inject now validates the caller's table first, resolves all eight entries (libc fallbacks included) into a local table and commits it with one assignment; the library's global becomes a private polyseed_deps_table with its own field order instead of a copy of the public polyseed_dependency 
+run inject-validates-then-commits-private-table C18 C13 C20 C15
+# polyseed_data is re-laid out: the 32-byte secret buffer first, then birthday and checksum as uint16_t and features as uint8_t (was: unsigned, unsigned, secret, uint_fast16_t), shrinking the seed block from 48 to 38 bytes on x86-64 with one trailing padding byte; storage.c gains compile-time width ch
+run seed-struct-38-bytes C13 C15 C16 C04 C06 C10 C11
